@@ -43,14 +43,21 @@ impl InferenceRule for MappingAccessRule {
             let original_val_ty = state.var_unchecked(value);
             let val_ty = unsafe { state.allocate_ty_var() };
 
-            state.infer(
-                val_ty,
-                TE::packed_of(vec![Span::new(
-                    original_val_ty,
-                    p.saturating_mul(WORD_SIZE_BITS),
-                    WORD_SIZE_BITS,
-                )]),
-            );
+            // A projection that is too large to be expressed as a bit offset cannot be a member of a
+            // struct, so it tells us nothing about the layout of the mapping's value
+            if let Some(offset) = p
+                .checked_mul(WORD_SIZE_BITS)
+                .filter(|offset| offset.checked_add(WORD_SIZE_BITS).is_some())
+            {
+                state.infer(
+                    val_ty,
+                    TE::packed_of(vec![Span::new(
+                        original_val_ty,
+                        offset,
+                        WORD_SIZE_BITS,
+                    )]),
+                );
+            }
             let slot_ty = TE::mapping(key_tv, val_ty);
             state.infer_for(slot, slot_ty);
         }
